@@ -46,11 +46,21 @@ OkC18(o) ==
     \* the default result is a subsequence of the not_ignore result, which is every wire attribute
     /\ o.res[9].ok /\ o.res[9].idx = [k \in 1..Len(o.kinds) |-> k]
     /\ o.res[1].ok /\ \A k \in 1..Len(o.res[1].idx) : o.res[1].idx[k] \in 1..Len(o.kinds)
-    \* no context = default context
+    \* no context = default context, whether it comes from the builder or from DecoderContext::default()
     /\ o.res[17] = o.res[1]
+    /\ ("dflt" \in DOMAIN o) => o.dflt = o.res[1]
+
+\* C18 on a message with an attribute whose value does not decode (op "filterbad"): whether such a
+\* message is refused is not part of C18, so only the relations between option settings are judged
+OkC18Bad(o) ==
+    /\ \A i \in Opts : ~o.res[i].panic
+    /\ \A i \in 1..16 : (Opt(i).validation /\ o.res[i].ok) =>
+          LET j == i - 1 IN o.res[j].ok /\ o.res[j].idx = o.res[i].idx /\ o.res[j].unk = o.res[i].unk
+    /\ o.res[17] = o.res[1] /\ o.dflt = o.res[1]
 
 Props == {"C09", "C18"}
-Holds(p, o) == IF p = "C09" THEN OkC09(o) ELSE OkC18(o)
+Holds(p, o) == IF o.op = "filterbad" THEN (p = "C18" => OkC18Bad(o))
+               ELSE IF p = "C09" THEN OkC09(o) ELSE OkC18(o)
 
 VARIABLES l, nbad
 vars == <<l, nbad>>
